@@ -85,3 +85,41 @@ package resp
 //@   props C03
 //@   requires h != nil && r != nil
 //@   modifies *, r.pos, r.avail, r.failed
+
+// ---- C11: reading a response (client side), order of the steps ----
+// ReadHeaders: a second header block is read only after a first one was read without error (the 100-continue
+// interim response); nothing is read after an error.
+//@ ghost var rhOK int
+//@ func ReadHeaders(resp, r) err
+//@   props C11
+//@   abstract
+//@   noinline
+//@   modifies rhOK
+//@   ghostset-at-entry rhOK = 0
+//@   assert before ReadHeader#0: rhOK == 0
+//@   assert before ReadHeader#1: rhOK == 1
+//@   ghostset after ReadHeader: rhOK = ite(result == nil, rhOK + 1, -1)
+//@   top-ensures err == nil ==> rhOK == 1 || rhOK == 2
+
+// ReadRespBody: no byte of the connection is read for a response that must not carry a body; otherwise the body
+// is read once, with the caller's limit; the trailer section is read only after a chunked body was read without
+// error; the Content-Length header is then set to the length of the body that was read.
+//@ ghost var rbSkip bool
+//@ ghost var rbBody int
+//@ ghost var rbChunked bool
+//@ func ReadRespBody(resp, r, maxBodySize) err
+//@   props C11
+//@   abstract
+//@   noinline
+//@   modifies rbSkip, rbBody, rbChunked
+//@   ghostset-at-entry rbSkip = true
+//@   ghostset-at-entry rbBody = 0
+//@   ghostset-at-entry rbChunked = false
+//@   ghostset after MustSkipBody: rbSkip = result
+//@   assert before ReadBody: !rbSkip && rbBody == 0 && arg2 == maxBodySize
+//@   ghostset after ReadBody: rbBody = ite(result1 == nil, 1, -1)
+//@   ghostset after ContentLength#1: rbChunked = (result == -1)
+//@   assert before ReadTrailer: rbBody == 1 && rbChunked
+//@   assert before SetContentLength: rbBody == 1
+//@   top-ensures rbSkip ==> rbBody == 0
+
